@@ -85,6 +85,7 @@ def run(chk, st, tier):
     chk.coverage["rule"] = ("every Add/Write history up to length %d (quick: half of the longest) over 5 shapes, 3 codecs, page sizes 1..2; for each, EVERY index k of the sink Write call that fails (k = 0 .. number of sink writes - 1); "
                             "the real writer's per-call error flags and the writes that reached the sink are compared with the model's (run_fault over the model's sink-write sequence). distinct = distinct (workload,k)." % maxlen)
     chk.coverage["explanation"] = "sink_fault_reported / run_fault_hit (coq/props/C09.v): in the model every fault is reported by the call in which it happens; the enumeration ties the model's sink-write sequence and error propagation to the code."
+    chk.assumptions += ['error propagation in the model is by construction; the enumeration over every k is what ties it to the code', 'a sink that returns an error has written nothing (the harness sink returns 0, err)']
 
 
 def replay(chk, st, data):
